@@ -162,7 +162,13 @@ class Detector:
     @photon.setter
     def photon(self, obj: Photon) -> None:
         """Set the photon information for the detector."""
-        self.photon._array = obj._array
+        array = obj._array
+        if array is None:
+            self.photon.empty()
+        elif isinstance(array, np.ndarray):
+            self.photon.array = array
+        else:
+            self.photon.array_3d = array
 
     @property
     def scene(self) -> Scene:
